@@ -87,6 +87,71 @@ def spring_cases(ctx, n_models, n_steps):
   return len(lines), dis, meta
 
 
+def slides_xml(rng):
+  """a tree of 2-4 bodies, every body attached by ONE slide joint (random unit axis, random body orientation,
+  joint stiffness, optional armature), no gravity, no damping: constant coupled mass matrix, linear springs"""
+  n = int(rng.integers(2, 5))
+  parents = [-1] + [int(rng.integers(0, i)) for i in range(1, n)]
+  dt = float(rng.choice([0.001, 0.002, 0.005]))
+  ks, arms = [], []
+  def body(i):
+    axis = modelgen.rand_unit_vec(rng); quat = modelgen.rand_unit_quat(rng)
+    k = float(np.round(rng.uniform(0.5, 40), 3)); ks.append(k)
+    arm = float(np.round(rng.uniform(0, 0.3), 3)) if rng.random() < 0.5 else 0.0; arms.append(arm)
+    r = float(np.round(rng.uniform(0.05, 0.2), 3))
+    pos = np.round(rng.uniform(-0.3, 0.3, size=3), 3)
+    kids = ''.join(body(c) for c in range(n) if parents[c] == i)
+    return (f'<body name="b{i}" pos="{modelgen._f(pos)}" quat="{modelgen._f(quat)}">'
+            f'<joint name="j{i}" type="slide" axis="{modelgen._f(axis)}" pos="0 0 0" limited="false" '
+            f'stiffness="{k!r}" damping="0" armature="{arm!r}"/>'
+            f'<geom name="g{i}" type="sphere" size="{r!r}" density="1000" contype="0" conaffinity="0"/>{kids}</body>')
+  xml = (f'<mujoco model="slides"><compiler angle="radian" autolimits="false"/>'
+         f'<option timestep="{dt}" gravity="0 0 0"/>'
+         f'<custom><numeric data="0" name="matrix_inv_iterations"/></custom><worldbody>'
+         + ''.join(body(i) for i in range(n) if parents[i] == -1) + '</worldbody></mujoco>')
+  return xml, dict(n=n, dt=dt, parents=parents)
+
+
+def lin_cases(ctx, n_models, n_steps):
+  """whole trajectories of the real generalized pipeline on slide-only trees vs C12.linIter (A = M^-1 K)"""
+  _setup()
+  import jax
+  import jax.numpy as jp
+  from brax.generalized import pipeline
+  from brax.io import mjcf
+  rng = np.random.default_rng(ctx.seed + 900)
+  lines, real, meta = [], [], []
+  for _ in range(n_models):
+    xml, par = slides_xml(rng)
+    sysm = mjcf.loads(xml)
+    n = sysm.qd_size()
+    q0 = np.round(rng.uniform(-0.5, 0.5, size=n), 3); v0 = np.round(rng.uniform(-1, 1, size=n), 3)
+    step = jax.jit(lambda st, sysm=sysm: pipeline.step(sysm, st, jp.zeros(sysm.act_size())))
+    st = jax.jit(lambda q, qd, sysm=sysm: pipeline.init(sysm, q, qd))(jp.asarray(q0), jp.asarray(v0))
+    M = np.asarray(st.mass_mx, dtype=np.float64)
+    k = np.asarray(sysm.dof.stiffness, dtype=np.float64)
+    traj = [np.concatenate([q0, v0])]
+    for _ in range(n_steps):
+      st = step(st)
+      traj.append(np.concatenate([np.asarray(st.q), np.asarray(st.qd)]))
+    h = wire.f2hex
+    lines.append(' '.join(['lin', str(n)] + [h(x) for x in M.reshape(-1)] + [str(n)] + [h(x) for x in k] + [h(par['dt'])]
+                          + [str(n)] + [h(x) for x in q0] + [str(n)] + [h(x) for x in v0] + [str(n_steps)]))
+    real.append(np.concatenate(traj))
+    meta.append(dict(xml=xml, q0=q0.tolist(), v0=v0.tolist(), M=M.tolist(), k=k.tolist(), **par))
+  out = C.run_driver('Driver/C12.lean', lines)
+  dis = []
+  for o, r, mt in zip(out, real, meta):
+    if o.startswith('bad'):
+      dis.append(dict(what=f'driver: {o}', **mt)); continue
+    got = np.array([wire.parse(t) for t in o.split()])
+    if got.shape != r.shape or not np.allclose(got, r, rtol=1e-9, atol=1e-9):
+      kk = int(np.argmax(np.abs(got - r))) if got.shape == r.shape else -1
+      dis.append(dict(what='slide-only tree: generalized.pipeline.step trajectory differs from C12.linIter (A = M^-1 K)',
+                      first_bad_index=kk, lean=got[max(0, kk - 2):kk + 2].tolist(), real=r[max(0, kk - 2):kk + 2].tolist(), **mt))
+  return len(lines), dis, meta
+
+
 # ----------------------------------------------------------------------------- drift observation
 
 
@@ -167,17 +232,21 @@ def drift_cases(ctx, n, seed_offset=0):
 
 def correspond(ctx):
   n, dis, meta = spring_cases(ctx, ctx.budget(12, 120), ctx.budget(60, 300))
+  n2, dis2, meta2 = lin_cases(ctx, ctx.budget(8, 80), ctx.budget(40, 200))
+  n += n2; dis += dis2
   cases, fails = drift_cases(ctx, ctx.budget(6, 40))
   return dict(
       evaluations=n + len(cases), distinct_nontrivial=n + len({c['types'] for c in cases}),
       rule='(a) one-dof spring models (random unit axis, body orientation, mass, armature, stiffness, damping or not, '
            'dt in {1,2,5,10} ms): 60-step trajectories of generalized.pipeline.step vs C12.oscIter (1e-9); '
+           '(a2) slide-only trees of 2-4 bodies (random axes/orientations/topology, stiffness, armature; constant coupled mass '
+           'matrix): 40-step trajectories vs C12.linIter with A = M^-1 K (1e-9); '
            '(b) conservative generator models (1-4 links, no damping/limits/actuators, springs allowed, exact inverse): '
            'energy drift over 64 ms at dt, dt/2, dt/4 must shrink like dt (observation only)',
       samples=[{k: v for k, v in meta[0].items() if k != 'xml'}] + [dict(types=c['types'], drifts=c['drifts']) for c in cases[:2]],
       disagreements=dis, spec_failures=fails,
       trusted_base=['correspondence harness corr_C12.py (sampled one-dof spring models, float64 1e-9)'],
-      assumptions=['theorems cover the one-dof spring family only; first-order convergence of the drift for general '
+      assumptions=['theorems cover the one-dof spring family and every constant-mass-matrix system with linear springs (slide-only trees); first-order convergence of the drift for general '
                    'articulated models is observed (Richardson test), not proved',
                    'exact reals: round-off not modelled'],
       explanation='Props/C12.lean proves exact conservation of the modified energy and an O(dt) drift bound uniform in the '
